@@ -12,10 +12,13 @@ Two layers, kept apart so that theorems speak about "the tracer's code against t
 * `D` — the debugger: `Tracer::resume`, `apply_new_status` (non-SIGTRAP branch), `Tracer::single_step`,
   `inject_signal_queue`, `Debugger::continue_execution / stepi / step_over_breakpoint` restricted to one thread, one user
   breakpoint site, no watchpoints.  Mirrors the code as it is (src/debugger/debugee/tracer.rs), including:
-    - `single_step` injects a quiet signal with `step(Some(sig))` although `apply_new_status` has queued it as well;
+    - `single_step` injects a quiet signal with `step(Some(sig))` and takes back the request that `apply_new_status`
+      has just queued for it;
+    - a wait status other than a SIGTRAP stop after `PTRACE_SYSCALL` in `single_step` goes through `apply_new_status`;
+    - `single_step` resumes with `step(None)` a thread that still has a signal queued for injection: a second
+      signal-delivery-stop of that thread puts a second request in the queue (ghost flag `piled`);
     - `resume` pops the head of the queue and *excludes every thread that still has a queued signal* from being continued:
-      with one thread and two queued signals the head is dropped without being injected and the next one is reported (again);
-    - `debug_assert!(syscall_status is SIGTRAP)` after `PTRACE_SYSCALL` in `single_step` (builds with debug assertions).
+      with one thread and two queued signals the head is dropped without being injected and the next one is reported (again).
 
 Abstraction of the program: between two script events the debuggee executes a long padding loop; an instruction step
 never reaches the next script event nor the end of a handler it was started in (assumption, see tools/props/C10.py).
@@ -127,7 +130,12 @@ def resume (k : K) (m : Mode) (d : Sig) (bpOn : Bool) : K × WEv :=
       | .sysc =>
         if k2.frames = [] then ({ k2 with stop := .trap }, .unmodelled)
         else ({ k2.fresh with stop := .sysEntry }, .trap5)
-      | .cont => runMain bpOn { k2 with frames := [] } k2.script
+      | .cont =>
+        -- all handlers return; if that leads back onto the INT3 of the breakpoint site whose instruction has not been
+        -- executed yet (the step over it was interrupted by a signal stop), the breakpoint is hit again
+        let base := (k2.frames.getLast?).getD k2.pos
+        if bpOn ∧ k2.bpPos = some base then ({ k2 with frames := [], pos := base, stop := .trap }, .trapBp)
+        else runMain bpOn { k2 with frames := [] } k2.script
 
 /-- a signal sent from outside while the thread is stopped -/
 def send (k : K) (priv : Bool) (s : Sig) : K :=
@@ -151,7 +159,7 @@ inductive Cmd
 
 inductive Out
   | ok | none | err | bad | dead
-  | bp | exit | sig (s : Sig) | done | panic | unmodelled | outOfFuel
+  | bp | exit | sig (s : Sig) | done | unmodelled | outOfFuel
   deriving DecidableEq, Repr
 
 structure D where
@@ -163,11 +171,11 @@ structure D where
   log : List LogEv := []      -- cumulative
   reported : List Sig := []   -- cumulative: `StopReason::SignalStop` handed to the user (= `EventHook::on_signal`)
   stops : List Out := []      -- outcomes of the `continue`s of the last `drain`
-  stepArr : Bool := false     -- ghost: some signal-delivery-stop was reported while `single_step` was waiting
+  piled : Bool := false       -- ghost: some signal was queued while another one was still waiting for injection
   deriving Repr
 
 /-- result of `Tracer::single_step` -/
-inductive SRes | none | sig (s : Sig) | panic | err | unmodelled | outOfFuel
+inductive SRes | none | sig (s : Sig) | err | unmodelled | outOfFuel
   deriving DecidableEq, Repr
 
 /-- result of `Tracer::resume` -/
@@ -188,7 +196,7 @@ def kres (d : D) (m : Mode) (s : Sig) : D × WEv :=
 
 /-- `apply_new_status`, `_ =>` branch: queue unless transparent -/
 def push (d : D) (s : Sig) : D :=
-  if s ∈ transparent then d else { d with queue := d.queue ++ [s] }
+  if s ∈ transparent then d else { d with queue := d.queue ++ [s], piled := d.piled || !d.queue.isEmpty }
 
 /-- a resume request, the `waitpid` after it, and — when that reports a signal-delivery-stop — the queueing of the
 signal by `apply_new_status` (one atomic step of the tracer: nothing happens between the three) -/
@@ -198,50 +206,41 @@ def kp (d : D) (m : Mode) (s : Sig) : D × WEv :=
   | .sigStop a => (r.1.push a, r.2)
   | _ => r
 
-/-- `kp` inside `single_step`; the ghost flag records that a signal-delivery-stop was seen there -/
-def kps (d : D) (m : Mode) (s : Sig) : D × WEv :=
-  let r := d.kp m s
-  match r.2 with
-  | .sigStop _ => ({ r.1 with stepArr := true }, r.2)
-  | _ => r
-
-/-- `PTRACE_SYSCALL` + `wait_one` inside `single_step` (no `apply_new_status`), with the ghost flag -/
-def ksys (d : D) : D × WEv :=
-  let r := d.kres .sysc 0
-  match r.2 with
-  | .sigStop _ => ({ r.1 with stepArr := true }, r.2)
-  | _ => r
+/-- `single_step`, quiet branch: the injection request that `apply_new_status` has just queued for the signal is taken
+back (`rposition` of the entry + `remove`) -/
+def unqueue (q : List Sig) (s : Sig) : List Sig := (q.reverse.erase s).reverse
 
 /-- the loop of `Tracer::single_step` after the first `step(None)`; a reported `sigStop` has already been queued -/
 def ssLoop : Nat → Nat → D → WEv → D × SRes
   | 0, _, d, _ => (d, .outOfFuel)
   | f + 1, ini, d, .trap =>
     if d.k.pos = ini then
-      let r := d.kps .step 0
+      let r := d.kp .step 0
       ssLoop f ini r.1 r.2
     else (d, .none)
   | _ + 1, _, d, .trapBp => (d, .none)
   | f + 1, ini, d, .trap5 =>
-    -- `PTRACE_SYSCALL`, `wait_one`, `debug_assert!(status == Stopped(SIGTRAP))`: no `apply_new_status` here
-    let r := d.ksys
+    -- `PTRACE_SYSCALL`, `wait_one`: a SIGTRAP stop is the syscall stop, anything else goes through `apply_new_status`
+    let r := d.kp .sysc 0
     match r.2 with
     | .trap | .trap5 | .trapBp =>
-      let r2 := r.1.kps .step 0
+      let r2 := r.1.kp .step 0
       ssLoop f ini r2.1 r2.2
-    | .unmodelled => (r.1, .unmodelled)
-    | _ => (r.1, .panic)
+    | .sigStop s => ssLoop f ini r.1 (.sigStop s)
+    | _ => (r.1, .unmodelled)
   | f + 1, ini, d, .sigStop s =>
     if s ∈ quiet then
-      let r := d.kps .step s
+      let r := { d with queue := unqueue d.queue s }.kp .step s
       ssLoop f ini r.1 r.2
     else (d, .sig s)
   | _ + 1, _, d, .exitEv => (d, .err)
   | _ + 1, _, d, .unmodelled => (d, .unmodelled)
 
-def ssFuel (d : D) : Nat := 4 * (d.k.pp.length + d.k.sp.length) + 8
+def ssFuel (d : D) : Nat := 4 * (d.k.pp.length + d.k.sp.length + d.queue.length) + 12
 
+/-- `Tracer::single_step` -/
 def singleStep (d : D) : D × SRes :=
-  let r := d.kps .step 0
+  let r := d.kp .step 0
   ssLoop (ssFuel d) d.k.pos r.1 r.2
 
 /-- `Tracer::resume` -/
@@ -280,16 +279,15 @@ def afterStep (d : D) : D × Out :=
   | .exit => (r.1, .exit)
   | .sig s => (r.1.report s, .sig s)
   | .unmodelled => (r.1, .unmodelled)
-  | .outOfFuel => (r.1, .outOfFuel)
+  | .outOfFuel => ({ r.1 with dead := true }, .outOfFuel)
 
 /-- outcome of a `single_step` that did not complete -/
 def stepOut (d : D) : SRes → D × Out
   | .sig s => (d.report s, .sig s)
   | .none => (d, .done)
-  | .panic => ({ d with dead := true }, .panic)
   | .err => (d, .err)
   | .unmodelled => (d, .unmodelled)
-  | .outOfFuel => (d, .outOfFuel)
+  | .outOfFuel => ({ d with dead := true }, .outOfFuel)
 
 /-- `Debugger::continue_execution` -/
 def contExec (d : D) : D × Out :=
